@@ -417,7 +417,7 @@ func tcpAborted() {
 		}
 		abort(ep.Connect())
 		kit.Quiesce()
-		kit.Sleep(50 * time.Millisecond)
+		kit.Sleep(2 * time.Second)
 		kit.Quiesce()
 		if a, _ := events(); a != 0 {
 			kit.Failf("event-for-aborted-handshake", "a connection that ended during the handshake (%d bytes, %s) produced %d Attaching event(s)", n, how, a)
@@ -425,7 +425,7 @@ func tcpAborted() {
 		g := ep.Connect()
 		g.Feed(hdr)
 		kit.Quiesce()
-		kit.Sleep(50 * time.Millisecond)
+		kit.Sleep(2 * time.Second)
 		kit.Quiesce()
 	} else {
 		w.dialer = true
